@@ -160,6 +160,11 @@ func (w *World) clusterAnchors() *clusterAnchors {
 			}
 		}
 	}
+	for role, f := range map[string]*ssa.Function{"memberJoin": a.join, "memberLeave": a.leave, "handleMembers": a.handleMembers, "rebuildKinds": a.rebuild,
+		"bcast": a.bcast, "activate": a.activate, "addActivated": a.addAct, "removeActivated": a.remAct, "handleActivation": a.hActivation,
+		"handleDeactivation": a.hDeact, "handleActorTopology": a.hTopology, "handleActivationRequest": a.hActReq, "handleGetActive": a.hGetActive} {
+		aliasRole(f, "(*cluster.Agent)."+role)
+	}
 	chk := func(n string, f *ssa.Function) {
 		if f == nil {
 			a.problems = append(a.problems, n)
@@ -1179,6 +1184,10 @@ func checkC20(w *World, r *Report) {
 			evChild = fn
 		}
 	}
+	aliasRole(addM, "(*cluster.SelfManaged).addMembers")
+	aliasRole(remM, "(*cluster.SelfManaged).removeMember")
+	aliasRole(sendAgent, "(*cluster.SelfManaged).sendMembersToAgent")
+	aliasRole(evChild, "(*cluster.SelfManaged).handleEventStream")
 	if addM == nil || remM == nil || sendAgent == nil || evChild == nil {
 		r.Unknown("C20.R3", "roles", "add-members / remove-member / report-to-agent / event-child helpers", w.fnPos(recv),
 			fmt.Sprintf("add=%v remove=%v report=%v eventChild=%v", addM != nil, remM != nil, sendAgent != nil, evChild != nil))
